@@ -68,8 +68,12 @@ def bump (t : Tally) (name : String) : Tally :=
 
 def msg (t : Tally) (m : String) : Tally :=
   -- at most 12 messages of each kind (the kind is the first word)
-  let kind := (m.splitOn " ").headD ""
-  if (t.msgs.filter (fun x => (x.splitOn " ").headD "" == kind)).length < 12
+  let key := fun (x : String) =>
+    let ws := x.splitOn " "
+    -- kind, plus the property= / field= token that follows line=
+    (ws.headD "") ++ " " ++ ((ws.drop 2).headD "")
+  let kind := key m
+  if (t.msgs.filter (fun x => key x == kind)).length < 6
   then { t with msgs := m :: t.msgs } else t
 
 def divergeAt (t : Tally) (field model impl : String) : Tally :=
